@@ -23,7 +23,7 @@ func init() {
 			"Item.expiration (Get's 'expired' answer, DeleteExpired's deletion, IsExpired's true answer) is tabulated over the abstract points {-1, 0, 0<e<now, e=now, e>now} the writer can store and the tables " +
 			"must agree (finite order abstraction, engine E6); OD3 IsExpired's true answer is feasible under the callee return summaries; PT3 the janitor goroutine is started only under cleanupTime > 0 and its only " +
 			"access to the cache is DeleteExpired (AG1); Set reaches its store on no path on which the lookup found a live entry, Update reaches its store on every feasible path; Delete/get address the entry " +
-			"under the caller's key. Locking and atomicity are C01/C02. Everything genuinely timed is not decided.",
+			"under the caller's key. WR1 what put leaves under the key carries nothing over from the entry it replaces (a fresh allocation, or an item written in place whose deadline is stored on every path). Locking and atomicity are C01/C02. Everything genuinely timed is not decided.",
 		Assumptions: []string{"go/ssa faithful to the source", "errors.Join/Unwrap contracts", "time.Now is monotone enough that 'now' exceeds every small constant"},
 		NotDecided:  []string{"liveness at every instant before the deadline", "cleanup within about one interval", "strictness at the exact deadline nanosecond", "scheduling of the janitor"},
 		Run:         runC08,
@@ -854,6 +854,73 @@ func c08Store(p *core.Program, r *core.Report, fns []*ssa.Function) {
 		c.ob("ER5", p.FuncName(put), "a rejected store leaves no trace", p.InstrPos(in), !leak, "cache state is written on a path that can still end in an error return: a rejected value (or duplicate) changes the entry although an error is reported")
 	}
 	c.ob("ER5", p.FuncName(put), "store site", c.fpos(put), nW >= 1, "put never writes the cache")
+	// WR1: what put leaves under the key carries no state of the entry it replaces. The
+	// item stored into items is a fresh allocation (its unwritten fields are zero: "never
+	// expires" for d == 0), or - if an existing item can be reused - its expiration is
+	// written on every path to the successful return.
+	for _, in := range path.Instrs(put) {
+		var stored ssa.Value
+		switch x := in.(type) {
+		case *ssa.MapUpdate:
+			if isLoadOfField(x.Map, "cache", "items") {
+				stored = x.Value
+			}
+		}
+		if stored == nil {
+			continue
+		}
+		fresh := true
+		for _, o := range valueOrigins(stored) {
+			if al, ok := o.(*ssa.Alloc); !ok || !al.Heap {
+				fresh = false
+			}
+		}
+		okW := fresh
+		if !fresh {
+			isExp := func(i ssa.Instruction) bool {
+				st, ok := i.(*ssa.Store)
+				if !ok {
+					return false
+				}
+				f, ok := slotOf(st.Addr, "Item")
+				return ok && f == "expiration"
+			}
+			okW = path.MinCount(put, isExp) >= 1
+		}
+		c.ob("WR1", p.FuncName(put), "the stored entry carries nothing over from the one it replaces", p.InstrPos(in), okW, "put stores an item that can be the entry already held under the key, and does not write its deadline on every path (the d == 0 'never expires' case keeps the old deadline): an overwritten entry inherits the expiry of the entry it replaced")
+	}
+	// ... and nothing else in put may write an item that is already in the map
+	for _, in := range path.Instrs(put) {
+		st, ok := in.(*ssa.Store)
+		if !ok {
+			continue
+		}
+		fa, ok := st.Addr.(*ssa.FieldAddr)
+		if !ok {
+			continue
+		}
+		if n := namedOf(fa.X.Type()); n == nil || n.Obj().Name() != "Item" {
+			continue
+		}
+		freshBase := true
+		for _, o := range valueOrigins(fa.X) {
+			if al, ok := o.(*ssa.Alloc); !ok || !al.Heap {
+				freshBase = false
+			}
+		}
+		if freshBase {
+			continue
+		}
+		isExp := func(i ssa.Instruction) bool {
+			s2, ok := i.(*ssa.Store)
+			if !ok {
+				return false
+			}
+			f, ok := slotOf(s2.Addr, "Item")
+			return ok && f == "expiration"
+		}
+		c.ob("WR1", p.FuncName(put), "an item written in place gets its deadline on every path", p.InstrPos(st), path.MinCount(put, isExp) >= 1, "put writes into an item that may already be in the map without setting its deadline on every path: the d == 0 'never expires' case keeps the deadline of the replaced entry")
+	}
 }
 
 // cacheSetRule (shared by C08 and C17): Set decides "already there" through the
